@@ -503,9 +503,13 @@ class CombinedCategoricalDissimilarity(AbstractDissimilarity):
         if pos_dissim is None:
             pos_dissim = PositionalSporadicDissimilarity(delta_empty)
         if cat_dissim is None:
-            cat_dissim = AbsoluteCategoricalDissimilarity()
+            cat_dissim = AbsoluteCategoricalDissimilarity(delta_empty)
 
-        cat_dissim.delta_empty = delta_empty
+        # delta_empty of the combined dissimilarity applies to both components, compiled functions included
+        for dissim in (pos_dissim, cat_dissim):
+            if dissim.delta_empty != np.float32(delta_empty):
+                dissim.delta_empty = np.float32(delta_empty)
+                dissim.d_mat = dissim.compile_d_mat()
         self.positional_dissim: AbstractDissimilarity = pos_dissim
         self.categorical_dissim: CategoricalDissimilarity = cat_dissim
         self.alpha = alpha
